@@ -25,13 +25,16 @@ lane() {
         n=$((n+1)); [ $((n % nl)) -eq $l ] || continue
         git -C $repo checkout -q -- .
         git -C $repo apply "$patch" || { echo "ERROR $label: patch does not apply" >> $root/res$l.txt; continue; }
-        (cd $sim && cargo build --release --offline >$out/build.log 2>&1) || { echo "ERROR $label: build failed" >> $root/res$l.txt; continue; }
+        (cd $sim && cargo build --release --offline >$out/build.log 2>&1 && cargo build --profile checked --offline >>$out/build.log 2>&1) || { echo "ERROR $label: build failed" >> $root/res$l.txt; continue; }
+        # as ./check does: a tenth of the budget in the checked profile first, then the release run
+        o1=$(ACPISIM_OUT=$out VERIF_WORKERS=6 VERIF_SCALE=$(python3 -c "print($scale*0.1)") $sim/target/checked/acpisim check $prop quick --evidence $out/ev.json 2>&1); rc1=$?
         o=$(ACPISIM_OUT=$out VERIF_WORKERS=6 VERIF_SCALE=$scale $bin check $prop quick --evidence $out/ev.json 2>&1); rc=$?
+        if [ $rc -ne 1 ] && [ $rc1 -eq 1 ]; then o="$o1"; rc=1; bin_replay=$sim/target/checked/acpisim; else bin_replay=$bin; fi
         rp=$(echo "$o" | grep -m1 '^VIOLATION' | sed 's/.*replay=//'); rrc=-; after=-
-        [ -n "$rp" ] && { $bin replay "$rp" >/dev/null 2>&1; rrc=$?; }
+        [ -n "$rp" ] && { $bin_replay replay "$rp" >/dev/null 2>&1; rrc=$?; }
         git -C $repo checkout -q -- .
-        (cd $sim && cargo build --release --offline >$out/build.log 2>&1)
-        [ -n "$rp" ] && { $bin replay "$rp" >/dev/null 2>&1; after=$?; }
+        (cd $sim && cargo build --release --offline >$out/build.log 2>&1 && cargo build --profile checked --offline >>$out/build.log 2>&1)
+        [ -n "$rp" ] && { $bin_replay replay "$rp" >/dev/null 2>&1; after=$?; }
         v=DETECTED; { [ $rc -ne 1 ] || [ "$rrc" != 1 ] || [ "$after" != 0 ]; } && v=MISSED
         echo "$v $label property=$prop check_rc=$rc replay_rc_with_change=$rrc replay_rc_after_revert=$after :: $(echo "$o" | grep -m1 '^violation' | cut -c1-180)" >> $root/res$l.txt
     done < $root/work.tsv
